@@ -143,7 +143,18 @@ fn ending_client(c: usize, s: usize, descr: &mut Vec<String>) -> Client {
         4 => {
             name = "malformed request";
             let r = mk(ReqKind::Malformed(gen::pick(&Malf::ALL)), ok(200), "GET");
+            // half of these clients do not read for a while: with a small socket buffer the
+            // server's error response blocks, and the connection is still being serviced
+            let stalls = gen::ratio(1, 2);
+            if stalls {
+                ops.push(Op::StopReading);
+            }
             ops.push(Op::Send(r.head()));
+            if stalls {
+                ops.push(Op::Pause(5 + gen::below(60)));
+                ops.push(Op::ResumeReading);
+                gen::count("probe.client_stalls_before_reading_error_response");
+            }
             ops.push(Op::AwaitFinal(1));
             ops.push(Op::Fin);
         }
@@ -232,7 +243,8 @@ fn server_level(cfg: &RunCfg) -> Outcome {
     let max_conns = 1 + gen::below(4) as usize;
     let scfg = ServerCfg { max_conns, small_body_len: s, cache_dir: Some(dir.path.clone()), with_permit: false };
     with(|w| {
-        w.net.knobs.sock_cap = *w.tape.pick(&[262_144usize, 2048]);
+        // (64: even a 100-byte error response does not fit the socket buffer of a client that is not reading)
+        w.net.knobs.sock_cap = *w.tape.pick(&[262_144usize, 2048, 64]);
         w.net.knobs.short_io = w.tape.ratio(1, 2);
         w.net.knobs.spurious_pending_64 = *w.tape.pick(&[0u32, 0, 6]);
     });
